@@ -65,7 +65,13 @@ def step (st : St) (ws : List String) (j : Json) : St × String :=
         (let ws := (jarr (jget j "written_serials")).map jnat
          if (ws.zip (ws.drop 1)).all (fun (a, b) => a ≤ b) then [] else ["rrdp_serials_monotone"]) ++
         (if b "staged_pending" || jget j "disk_serial" == jget j "content_serial_after_idle_update"
-         then [] else ["rrdp_files_current"])
+         then [] else ["rrdp_files_current"]) ++
+        -- no lost wake-up: when everything is idle, changes that are still staged (the idle
+        -- update moved the serial) have an RRDP update task waiting for them (C09
+        -- `publication_schedules_rrdp_update` under concurrency: the task is scheduled AFTER the change)
+        (if jget j "content_serial" == jget j "content_serial_after_idle_update" || b "rrdp_task_present"
+            || (jget j "rrdp_task_present").isNull
+         then [] else ["staged_changes_have_a_task"])
       if orc.isEmpty then
         let classes := (edges.filterMap fun (a, b) => match parseLock a, parseLock b with
           | some x, some y => some (edgeClass x y) | _, _ => none).eraseDups
